@@ -79,6 +79,7 @@ class Ctx:
         self.fn_label = fn_label
         self.notes = []
         self.obl_seq = {}
+        self.mode = "assume"
         smt.reset_names()
 
     # ---- decisions -------------------------------------------------------------------------
@@ -130,6 +131,20 @@ class Ctx:
             raise PathEnd()
         self.pc.append(f)
         self.solver.add(f)
+
+    def eq(self, a, b):
+        """Sequence equality: a real equality when assumed, the pointwise (skolemisable) form when proved."""
+        if self.mode == "prove":
+            return smt.seq_eq(a, b)
+        return a == b
+
+    def proving(self, fn, *args):
+        old = self.mode
+        self.mode = "prove"
+        try:
+            return fn(*args)
+        finally:
+            self.mode = old
 
     # ---- obligations -----------------------------------------------------------------------
     def prove(self, name, goal, node=None, note=None):
